@@ -1,14 +1,80 @@
 // ctl_mutex.cpp — controlled-schedule scenarios for cocls::mutex (C07, C08).  engine: mx
+// Scheduling points do not depend on where the library placed its COCLS_VERIF_POINT marks: the harness
+// supplies std::atomic<cocls::awaiter*> itself (explicit specialization below), so that EVERY atomic
+// operation on mutex::_requests (load / store / exchange / compare_exchange) first yields to the
+// controller.  Of the library's marks only "m_pub" (the window after the publishing CAS, where no atomic
+// operation follows) and the BLOCK before flag.wait are kept; scenario points: "cs", "step".
 // ops:  1 kind a1 r1 a2 r2 ...   contender: kind 0 coroutine / 1 plain thread; per round: acquisition
 //                                 a = 0 lock (co_await lock() / lock().wait()), 1 try_lock;
 //                                 release r = 0 destruction of the ownership, 1 release() discarded,
 //                                 2 co_await release() (plain thread: same as 1)
 //       9 k1 k2 ...              schedule
-// output: one line "tid point task" per executed step, followed by "6 task" for every critical-section
-// entry that happened during that step; then the ctl deadlock line, one line per contender
+// output: one line "tid point task" per executed step (point: 27 load, 28 exchange, 29 compare_exchange,
+// 31 store, 22 m_pub, 8 flagwait, 25 cs, 30 step), followed by the scenario events of that step
+// ("5 task" request published = a successful compare_exchange stored an awaiter, "6 task" critical
+// section entered, "4 task" left); then the ctl deadlock line, one line per contender
 // "task 7 rounds entries failed_try done" and "8 overlap requests_null queue_null".
 #define VH_DEFINE_NEW
 #include "ctl.h"
+#include <cocls/verif_hooks.h>
+
+namespace mxh {
+void atomic_yield(int code);
+void published();
+bool is_request(const void *p);
+}  // namespace mxh
+
+namespace cocls {
+class awaiter;
+}
+
+// every operation yields first; the operation itself is the compiler builtin (sequentially consistent)
+template <>
+struct std::atomic<cocls::awaiter *> {
+    using T = cocls::awaiter *;
+    T v;
+    constexpr atomic() noexcept : v(nullptr) {}
+    constexpr atomic(T x) noexcept : v(x) {}
+    atomic(const atomic &) = delete;
+    atomic &operator=(const atomic &) = delete;
+    T load(std::memory_order = std::memory_order_seq_cst) const noexcept {
+        mxh::atomic_yield(27);
+        return __atomic_load_n(&v, __ATOMIC_SEQ_CST);
+    }
+    operator T() const noexcept { return load(); }
+    void store(T x, std::memory_order = std::memory_order_seq_cst) noexcept {
+        mxh::atomic_yield(31);
+        __atomic_store_n(&v, x, __ATOMIC_SEQ_CST);
+    }
+    T operator=(T x) noexcept {
+        store(x);
+        return x;
+    }
+    T exchange(T x, std::memory_order = std::memory_order_seq_cst) noexcept {
+        mxh::atomic_yield(28);
+        return __atomic_exchange_n(&v, x, __ATOMIC_SEQ_CST);
+    }
+    bool cas(T &e, T d) noexcept {
+        mxh::atomic_yield(29);
+        bool ok = __atomic_compare_exchange_n(&v, &e, d, false, __ATOMIC_SEQ_CST, __ATOMIC_SEQ_CST);
+        if (ok && mxh::is_request(d)) mxh::published();
+        return ok;
+    }
+    bool compare_exchange_weak(T &e, T d, std::memory_order = std::memory_order_seq_cst) noexcept { return cas(e, d); }
+    bool compare_exchange_weak(T &e, T d, std::memory_order, std::memory_order) noexcept { return cas(e, d); }
+    bool compare_exchange_strong(T &e, T d, std::memory_order = std::memory_order_seq_cst) noexcept { return cas(e, d); }
+    bool compare_exchange_strong(T &e, T d, std::memory_order, std::memory_order) noexcept { return cas(e, d); }
+};
+
+// the library's marks: keep only the one that is not directly followed by an atomic operation
+namespace mxh {
+inline void lib_point(const char *id) {
+    if (!std::strcmp(id, "m_pub")) ctl::point(id);
+}
+}  // namespace mxh
+#undef COCLS_VERIF_POINT
+#define COCLS_VERIF_POINT(id) ::mxh::lib_point(id)
+
 #define protected public
 #define private public
 #include <cocls/mutex.h>
@@ -36,31 +102,52 @@ struct Ctx {
     bool overlap = false;
     // (stamp, tid, task): from trace index `stamp` on, OS thread `tid` executes task `task`
     std::vector<std::array<long, 3>> marks;
-    // (stamp, task): critical-section entry during step `stamp`
-    std::vector<std::array<long, 2>> entries;
+    // (stamp, kind, task): scenario event during step `stamp` (6 entered, 4 left, 5 request published)
+    std::vector<std::array<long, 3>> events;
+    long cur[64] = {0};  // task executed by each OS thread
 
     long stamp() { return (long)c->trace.size(); }
     void mark(int id) {
         bool saved = vh::t_count;
         vh::t_count = false;
         marks.push_back({stamp(), (long)ctl::Controller::tid(), (long)id});
+        cur[ctl::Controller::tid() & 63] = id;
+        vh::t_count = saved;
+    }
+    void event(long kind, long id) {
+        bool saved = vh::t_count;
+        vh::t_count = false;
+        events.push_back({stamp() - 1, kind, id});
         vh::t_count = saved;
     }
     void enter(int id) {
         mark(id);
         if (in_cs.fetch_add(1) != 0) overlap = true;
         nent[id]++;
-        bool saved = vh::t_count;
-        vh::t_count = false;
-        entries.push_back({stamp() - 1, (long)id});
-        vh::t_count = saved;
+        event(6, id);
     }
-    void leave(int) { in_cs.fetch_sub(1); }
+    void leave(int id) {
+        in_cs.fetch_sub(1);
+        event(4, id);
+    }
     void step(int id) {
         mark(id);
         ctl::point("step");
     }
 };
+
+static Ctx *g_cx = nullptr;
+namespace mxh {
+void atomic_yield(int code) {
+    ctl::Controller *c = ctl::Controller::active();
+    if (!c || ctl::Controller::tid() < 0) return;
+    c->yield(ctl::AtPoint, code, nullptr, nullptr);
+}
+void published() {
+    if (g_cx && ctl::Controller::active() && ctl::Controller::tid() >= 0) g_cx->event(5, g_cx->cur[ctl::Controller::tid() & 63]);
+}
+bool is_request(const void *p) { return p != nullptr && p != (const void *)&cocls::awaiter::instance; }
+}  // namespace mxh
 
 static void critical(Ctx &cx, int id) {
     cx.enter(id);
@@ -150,7 +237,8 @@ static void run_case(const vh::Case &cs) {
     cx.nfail.assign(n, 0);
     cx.done.assign(n, 0);
     cx.marks.reserve(4096);
-    cx.entries.reserve(4096);
+    cx.events.reserve(8192);
+    g_cx = cxp;
     std::vector<std::function<void()>> fns;
     for (int i = 0; i < n; i++) {
         if (cx.decl[i].kind == 0) fns.push_back([&cx, i] { coro_body(cx, i).detach(); });
@@ -167,13 +255,13 @@ static void run_case(const vh::Case &cs) {
         for (auto &m : cx.marks)
             if (m[1] == tid && m[0] <= (long)k) task = m[2];
         vh::print_obs({tid, (long)c.trace[k].second, task});
-        while (ei < cx.entries.size() && cx.entries[ei][0] <= (long)k) {
-            vh::print_obs({6, cx.entries[ei][1]});
+        while (ei < cx.events.size() && cx.events[ei][0] <= (long)k) {
+            vh::print_obs({cx.events[ei][1], cx.events[ei][2]});
             ei++;
         }
     }
-    while (ei < cx.entries.size()) {
-        vh::print_obs({6, cx.entries[ei][1]});
+    while (ei < cx.events.size()) {
+        vh::print_obs({cx.events[ei][1], cx.events[ei][2]});
         ei++;
     }
     if (c.deadlock) {
@@ -183,6 +271,7 @@ static void run_case(const vh::Case &cs) {
     }
     for (int i = 0; i < n; i++) vh::print_obs({(long)i, 7, cx.nround[i], cx.nent[i], cx.nfail[i], cx.done[i]});
     vh::print_obs({8, (long)cx.overlap, (long)(cx.mx._requests.load() == nullptr), (long)(cx.mx._queue == nullptr)});
+    g_cx = nullptr;
     ctl::finish_case_or_restart(c);
     bool clean = cx.mx._requests.load() == nullptr && cx.mx._queue == nullptr;
     if (clean) delete cxp;  // otherwise ~mutex would assert; the state was already printed
